@@ -93,6 +93,14 @@ impl ExportCommand {
                     } else {
                         variable.export();
                     }
+                } else if !self.unexport && brush_core::env::valid_variable_name(s) {
+                    // Exporting a name that has no variable yet records the attribute, so
+                    // that a later assignment to it is exported.
+                    let mut variable = variables::ShellVariable::new(variables::ShellValue::Unset(
+                        variables::ShellValueUnsetType::Untyped,
+                    ));
+                    variable.export();
+                    context.shell.env_mut().set_global(s, variable)?;
                 }
             }
             brush_core::CommandArg::Assignment(assignment) => {
